@@ -81,6 +81,7 @@ struct Options {
     uint64_t maxSymObj = 1 << 16;
     std::string kissat = "";
     int dedupFailures = 1;
+    bool noSlice = false;
     std::map<std::string, uint64_t> fixedChoice;   // --fix name=value: nixsym_choice(name, n) returns value without forking
     std::set<std::string> knownIds;
     std::set<std::string> noReplace;   // substrings of function names whose __vrt__ replacement is disabled   // ids with status 'known' in known_findings.json
